@@ -414,13 +414,13 @@ def run(chk):
     for i in (0, 2, 4, 5, 7, 9):
         for j in (0, 1, 2, None):
             cases.append(P + ('arraylen', i, j))
-    for N in range(0, 3 if quick else 5):
+    for N in range(0, 3 if quick else 6):
         cases.append(P + ('struct', N, True))
         cases.append(P + ('struct', N, False))
     cases.append(P + ('detect',))
     chk.bounds = {'integer constants': '%d integer types x cdef values %r x every compiler value; unchecked constants of every type' % (len(CTYPES), CDEF_VALUES),
                   'constants as array lengths': 'parse_c_type("int[K]") for 6 of the types x cdef values / unchecked x every compiler value',
-                  'struct checks': '0..%d primitive fields of symbolic size, every compiler-reported offset (<= 4096), sizeof, alignof' % (2 if quick else 4)}
+                  'struct checks': '0..%d primitive fields of symbolic size, every compiler-reported offset (<= 4096), sizeof, alignof' % (2 if quick else 5)}
     chk.outside = ['functions and global variables of the module (call plumbing: C13), import machinery',
                    'the wrong-field-size check of do_realize_lazy_struct beyond detect_custom_layout itself',
                    'enum constants (same _cffi_const_ generator; the enum family is compiled but only constants are executed)']
